@@ -47,6 +47,9 @@ Clauses(r) ==
             /\ sm >= 0 /\ modeAt(r.after, q) = sm - (sm & r.umask)
       c14 == /\ (~rej /\ \E v \in vis : v.k = "blk") => ex # 0
              /\ (ex = 0 /\ ~rej) => \A v \in vis : (Special(v.k) /\ ~v.err) => nodeOk(v)
+             \* the statement is an obligation, not only a condition on exit 0: in a run without injected faults that the
+             \* reference execution completes, every special node IS created (replacing an existing entry)
+             /\ (~r.faulted /\ ~rej /\ ref.ok /\ ex > 0) => \A v \in vis : (Special(v.k) /\ ~v.err) => nodeOk(v)
       \* "source identical to destination": a single file whose mapped destination is the same inode under another name
       selfCopy == ~rej /\ Cardinality(vis) = 1 /\ \E v \in vis : v.k = "file" /\ SameFile(FS0(s), v.from, v.to)
       c16 == (rej \/ selfCopy) => ex # 0 /\ ObsFull(r.before) = ObsFull(r.after)
